@@ -58,10 +58,14 @@ Verdict(C) ==
 VARIABLES cid, done
 Check(c) ==
   LET C == BCases[c]
-      v == Verdict(C)
+      judged == C.onbounds \in {"none", "ok"}
+      v == IF judged THEN Verdict(C)
+           ELSE [ok |-> TRUE, known |-> TRUE, oneResult |-> TRUE, sameRet |-> TRUE, hasMethod |-> TRUE, eachOne |-> TRUE, noOrphan |-> TRUE]
       \* a _onBounds method that does not have the documented signature puts the package outside the property's premise:
       \* rejecting it with a diagnostic is fine, succeeding is fine only if the result compiles (checked by `builds`)
-      agree == IF C.onbounds = "bad" \/ C.onbounds = "other-grammar" THEN TRUE ELSE C.ok = v.ok
+      agree == IF C.onbounds = "bad" \/ C.onbounds = "other-grammar" THEN TRUE
+               ELSE IF C.onbounds = "must-succeed" THEN C.ok      \* bound by construction (types outside the relation tables)
+               ELSE C.ok = v.ok
       builds == C.ok => C.built
       flows == (C.ok /\ C.built) => C.marks = C.expmarks      \* every parameter holds the value produced for its term
   IN IF agree /\ builds /\ flows THEN TRUE
